@@ -800,15 +800,23 @@ def call_lua_sandbox(
     elif not isinstance(text, str):
         text = str(text)
     msg = re.sub(r".*?:\d+: ", "", text.split("\n", 1)[0])
+    # The text also contains names taken from the page (module title, function
+    # names in the traceback): an exceeded time limit is never one of the
+    # Wiktionary errors that are ignored below.
+    timed_out = "Lua timeout error" in text
     if "'debug.error'" in text:
         if not msg.startswith("This template is deprecated."):
             ctx.debug("lua error -- " + msg, sortid="luaexec/659")
-    elif "Translations must be for attested and approved " in text:
+    elif (
+        not timed_out
+        and "Translations must be for attested and approved " in text
+    ):
         # Ignore this error - it is an error but a clear error in Wiktionary
         # rather than in the extractor.
         return ""
     elif (
-        "attempt to index a nil value (local 'lang')" in text
+        not timed_out
+        and "attempt to index a nil value (local 'lang')" in text
         and "in function 'Module:links.getLinkPage'" in text
     ):
         # Ignore this error - happens when an unknown language code is passed
@@ -830,7 +838,7 @@ def call_lua_sandbox(
                 sortid="luaexec/683",
             )
     msg = "Lua execution error"
-    if "Lua timeout error" in text:
+    if timed_out:
         msg = "Lua timeout error"
     return '<strong class="error">{} in {} function {}</strong>'.format(
         msg, html.escape(modname), html.escape(modfn)
